@@ -71,7 +71,7 @@ class Contract:
 
 class LoopContract:
     def __init__(self, targets, invariant, modifies=(), decreases=None, index="_i", seq=None, heap_modifies=(),
-                 stepwise=()):
+                 stepwise=(), match_assume=()):
         self.targets = targets          # loop target names (fingerprint)
         self.invariant = list(invariant)  # clauses over locals + index var
         self.modifies = list(modifies)  # local names havoc'd (in addition to syntactically assigned)
@@ -79,6 +79,7 @@ class LoopContract:
         self.decreases = decreases
         self.index = index
         self.stepwise = list(stepwise)
+        self.match_assume = list(match_assume)
 
 
 class SpecFn:
